@@ -7,7 +7,9 @@ import (
 	"go/parser"
 	"go/token"
 	"go/types"
+	"bytes"
 	"os"
+	"os/exec"
 	"path/filepath"
 	"sort"
 	"strings"
@@ -23,11 +25,14 @@ import (
 
 func TestMain(m *testing.M) { ev.Main(m) }
 
-const rule = "case = generated package (declgen: functions, methods with value/pointer receivers, structs with fields and embedding, interfaces and implicit satisfaction, named types, generics, vars, stand-alone constants and iota groups, struct conversions, keyed/unkeyed literals, method values/expressions, closures; 1-3 files; package p or main); oracle 1 (deletion safety) = delete every object U1000 reports (funcs/methods/types with their methods removed, vars/consts/fields renamed to _) and type-check the result with go/types: only 'imported and not used' may appear; oracle 2 (completeness) = every unexported package-level func, named type, var or stand-alone const without any referring identifier (types.Info.Uses) must be reported; non-trivial = package with >=1 reported object and >=1 object kept alive only through an indirect rule (interface satisfaction, embedding, struct conversion, method value/expression, generic instantiation); distinct by hash of the sources"
+const rule = "case = generated package (declgen: functions, methods with value/pointer receivers, structs with fields and embedding, interfaces and implicit satisfaction, named types, generics, vars, stand-alone constants and iota groups, struct conversions, keyed/unkeyed literals, method values/expressions, closures, multi-name var specs with shared or per-name initializers, function-local types incl. local structs that satisfy an interface through an embedded field; 1-3 files; package p or main), analysed through the runner, or (TestCommandLine) through the staticcheck command together with hollowed twins of the same package name; oracle 1 (deletion safety) = delete every object U1000 reports (funcs/methods/types with their methods removed, vars/consts/fields renamed to _) and type-check the result with go/types: only 'imported and not used' may appear; oracle 2 (completeness) = every unexported package-level func, named type, var or stand-alone const without any referring identifier (types.Info.Uses) must be reported; non-trivial = package with >=1 reported object and >=1 object kept alive only through an indirect rule (interface satisfaction, embedding, struct conversion, method value/expression, generic instantiation); distinct by hash of the sources"
 
 // Case is a module with several independent generated packages (one runner invocation analyses all of them).
 type Case struct {
 	Pkgs []*declgen.Package `json:"pkgs"`
+	// CL: analyse the module with the staticcheck command (lintcmd merges the U1000 results of all
+	// packages of a run) instead of reading the runner's per-package results.
+	CL bool `json:"cl,omitempty"`
 }
 
 func files(p *declgen.Package) map[string]string {
@@ -184,6 +189,24 @@ func deletion(p *parsed, reported []unused.Object) (errs []string, undeletable i
 							// initializer (which may refer to other reported objects)
 							continue
 						}
+						if d.Tok == token.VAR && (len(s.Values) == len(s.Names) || len(s.Values) == 0) {
+							// one value per name (or none): a reported name goes together with its own initializer
+							var names []*ast.Ident
+							var values []ast.Expr
+							for i, n := range s.Names {
+								if want[n] {
+									continue
+								}
+								names = append(names, n)
+								if len(s.Values) > 0 {
+									values = append(values, s.Values[i])
+								}
+							}
+							s.Names, s.Values = names, values
+							specs = append(specs, s)
+							break
+						}
+						// shared multi-value initializer, constants: the name is blanked
 						for _, n := range s.Names {
 							if want[n] {
 								n.Name = "_"
@@ -202,6 +225,64 @@ func deletion(p *parsed, reported []unused.Object) (errs []string, undeletable i
 			}
 		}
 		f.Decls = decls
+	}
+	// reported objects declared inside function bodies: fields of local struct types and local types
+	filterFields := func(st *ast.StructType) {
+		var keep []*ast.Field
+		for _, fld := range st.Fields.List {
+			if len(fld.Names) == 0 {
+				if !wantEmbedded(p, want, fld) {
+					keep = append(keep, fld)
+				}
+				continue
+			}
+			var names []*ast.Ident
+			for _, n := range fld.Names {
+				if !want[n] {
+					names = append(names, n)
+				}
+			}
+			if len(names) > 0 {
+				fld.Names = names
+				keep = append(keep, fld)
+			}
+		}
+		st.Fields.List = keep
+	}
+	for _, f := range p.files {
+		for _, d := range f.Decls {
+			fd, ok := d.(*ast.FuncDecl)
+			if !ok || fd.Body == nil {
+				continue
+			}
+			ast.Inspect(fd.Body, func(n ast.Node) bool {
+				switch n := n.(type) {
+				case *ast.StructType:
+					filterFields(n)
+				case *ast.BlockStmt:
+					var keep []ast.Stmt
+					for _, st := range n.List {
+						if ds, ok := st.(*ast.DeclStmt); ok {
+							if gd, ok := ds.Decl.(*ast.GenDecl); ok && gd.Tok == token.TYPE {
+								var specs []ast.Spec
+								for _, sp := range gd.Specs {
+									if ts := sp.(*ast.TypeSpec); !want[ts.Name] {
+										specs = append(specs, sp)
+									}
+								}
+								if len(specs) == 0 {
+									continue
+								}
+								gd.Specs = specs
+							}
+						}
+						keep = append(keep, st)
+					}
+					n.List = keep
+				}
+				return true
+			})
+		}
 	}
 	// objects declared inside removed types go with them: their methods
 	for _, f := range p.files {
@@ -305,7 +386,103 @@ func zeroRef(p *parsed) map[string]string {
 	return out
 }
 
+type clProblem struct {
+	Code     string `json:"code"`
+	Message  string `json:"message"`
+	Location struct {
+		File   string `json:"file"`
+		Line   int    `json:"line"`
+		Column int    `json:"column"`
+	} `json:"location"`
+}
+
+// evaluateCL runs the staticcheck binary once over the whole module and applies both oracles to what it prints.
+func evaluateCL(c *Case) (msg string, infra string) {
+	mod := map[string]string{}
+	for k, pk := range c.Pkgs {
+		for n, src := range files(pk) {
+			mod[fmt.Sprintf("q%d/%s", k, n)] = src
+		}
+	}
+	dir, err := u1k.WriteModule(mod)
+	if err != nil {
+		return "", err.Error()
+	}
+	defer os.RemoveAll(dir)
+	if d, err := filepath.EvalSymlinks(dir); err == nil {
+		dir = d
+	}
+	cache, _ := os.MkdirTemp("", "c07cache-")
+	defer os.RemoveAll(cache)
+	cmd := exec.Command(filepath.Join(ev.BinDir(), "staticcheck"), "-f", "json", "-checks", "U1000", "./...")
+	cmd.Dir = dir
+	cmd.Env = append(os.Environ(), "STATICCHECK_CACHE="+cache)
+	var stdout, stderr bytes.Buffer
+	cmd.Stdout, cmd.Stderr = &stdout, &stderr
+	runErr := cmd.Run()
+	if ee, ok := runErr.(*exec.ExitError); runErr != nil && (!ok || ee.ExitCode() > 1) {
+		return "", fmt.Sprintf("staticcheck failed: %v\n%s", runErr, stderr.String())
+	}
+	per := make([]unused.Result, len(c.Pkgs))
+	for _, line := range strings.Split(strings.TrimSpace(stdout.String()), "\n") {
+		if line == "" {
+			continue
+		}
+		var p clProblem
+		if err := json.Unmarshal([]byte(line), &p); err != nil {
+			return "", "cannot parse staticcheck output: " + line
+		}
+		if p.Code != "U1000" {
+			return "", "unexpected problem: " + line
+		}
+		rel, err := filepath.Rel(dir, p.Location.File)
+		if err != nil {
+			return "", "file outside the module: " + line
+		}
+		var k int
+		var base string
+		if _, err := fmt.Sscanf(filepath.ToSlash(rel), "q%d/%s", &k, &base); err != nil || k < 0 || k >= len(c.Pkgs) {
+			return "", "cannot attribute " + line
+		}
+		// "<kind> <name> is unused"
+		f := strings.Fields(p.Message)
+		if len(f) < 4 || f[len(f)-1] != "unused" {
+			return "", "unexpected message: " + line
+		}
+		per[k].Unused = append(per[k].Unused, unused.Object{
+			Kind:     f[0],
+			Name:     strings.Join(f[1:len(f)-2], " "),
+			Position: token.Position{Filename: p.Location.File, Line: p.Location.Line, Column: p.Location.Column},
+		})
+	}
+	var sb strings.Builder
+	names := map[string]int{}
+	for _, pk := range c.Pkgs {
+		names[pk.Name]++
+	}
+	for k, pk := range c.Pkgs {
+		ev.Count("cli_packages", 1)
+		if names[pk.Name] > 1 {
+			ev.Count("cli_packages_sharing_their_name_with_another_package_of_the_run", 1)
+		}
+		m, infra := evalPkg(pk, per[k])
+		if infra != "" {
+			return "", infra
+		}
+		if m != "" {
+			fmt.Fprintf(&sb, "staticcheck -checks U1000 ./... (%d packages), package q%d:\n%s", len(c.Pkgs), k, m)
+			for i := range pk.Files {
+				fmt.Fprintf(&sb, "// ---- q%d/%s\n%s", k, pk.FileName(i), pk.Source(i))
+			}
+		}
+	}
+	return sb.String(), ""
+}
+
 func evaluate(c *Case) (msg string, infra string) {
+	if c.CL {
+		return evaluateCL(c)
+	}
 	mod := map[string]string{}
 	for k, pk := range c.Pkgs {
 		for n, src := range files(pk) {
@@ -434,6 +611,42 @@ func TestDeletionAndCompleteness(t *testing.T) {
 		}
 		if msg != "" {
 			ev.Failf(rt, "TestDeletionAndCompleteness", "%s", msg)
+		}
+	})
+}
+
+// TestCommandLine analyses modules through the staticcheck command. Every
+// generated package comes with a hollowed twin in another directory: same
+// package name, same file names, every declaration on the same line, but some
+// function bodies emptied, so that objects used in one are unreferenced in
+// the other.
+func TestCommandLine(t *testing.T) {
+	ev.Rule(rule)
+	ev.Check(t, "TestCommandLine", func(rt *rapid.T) {
+		c := &Case{CL: true}
+		n := rapid.IntRange(1, 3).Draw(rt, "npairs")
+		for i := 0; i < n; i++ {
+			name := "p"
+			if rapid.IntRange(0, 2).Draw(rt, "main") == 0 {
+				name = "main"
+			}
+			a := declgen.Generate(rt, name)
+			c.Pkgs = append(c.Pkgs, a)
+			ntwins := rapid.IntRange(1, 2).Draw(rt, "ntwins")
+			for j := 0; j < ntwins; j++ {
+				c.Pkgs = append(c.Pkgs, a.Hollow(func(int) bool { return rapid.IntRange(0, 2).Draw(rt, "hollow") > 0 }))
+			}
+		}
+		js, _ := json.Marshal(c)
+		ev.Begin("TestCommandLine", "json", js)
+		msg, infra := evaluate(c)
+		if infra != "" {
+			ev.Count("infra_skipped", 1)
+			ev.Extra("last_infra", infra)
+			rt.Skip(infra)
+		}
+		if msg != "" {
+			ev.Failf(rt, "TestCommandLine", "%s", msg)
 		}
 	})
 }
